@@ -108,7 +108,7 @@ Qed.
 
 (* ---------------------------------------------------------------- iq entities of the base class, any xmlns / type string *)
 Definition generic_iq (x t i to : ostr) : feat :=
-  mkFeat "iq" x t i None to None ["IqProtocolEntity"; "ProtocolEntity"] [] false None false false false false.
+  mkFeat "iq" x t i None to None ["IqProtocolEntity"; "ProtocolEntity"] [] false None false false false false false.
 
 Definition iq_layer_xmlns : list string :=
   ["w:p"; "urn:xmpp:whatsapp:push"; "w"; "urn:xmpp:whatsapp:account"; "encrypt"; "urn:xmpp:whatsapp:sync";
